@@ -324,3 +324,16 @@ Proof.
     pose proof (handles_perm a a' t t' T P C C' (method_request_string (a_tns a) ps r)) as Q.
     rewrite <- T. rewrite <- T in Q. exact Q.
 Qed.
+
+(** ------------------------------------------------------------------ a request that names nothing *)
+
+Lemma dispatch_wire_named tns t ps r : dispatch_wire tns t ps (Named r) = dispatch tns t ps r.
+Proof. reflexivity. Qed.
+
+Lemma nameless_not_found tns t ps : dispatch_wire tns t ps Nameless = NotFound.
+Proof. reflexivity. Qed.
+
+Lemma wire_cases tns t ps w :
+  (exists r, w = Named r /\ dispatch_wire tns t ps w = dispatch tns t ps r)
+  \/ (w = Nameless /\ dispatch_wire tns t ps w = NotFound).
+Proof. destruct w as [r|]; [left; exists r; split; reflexivity | right; split; reflexivity]. Qed.
